@@ -425,8 +425,10 @@ def cmd_check(prop, tier, seed, only=None, jobs=None, verbose=False):
         'violations': len(real_viol),
     }
     evidence['coverage'].update(ev_extra)
-    os.makedirs(os.path.join(HERE, 'evidence'), exist_ok=True)
-    with open(os.path.join(HERE, 'evidence', '%s.json' % prop), 'w') as f:
+    evdir = os.environ.get('VERIF_EVIDENCE_DIR') or os.path.join(HERE,
+                                                                 'evidence')
+    os.makedirs(evdir, exist_ok=True)
+    with open(os.path.join(evdir, '%s.json' % prop), 'w') as f:
         json.dump(evidence, f, indent=1, sort_keys=True)
 
     # ---- verdict -----------------------------------------------------------
